@@ -92,6 +92,25 @@ CLAIMS = {
               "Tie: translator + stream S15 (all directions incl. ulp-near axes, 7 range tuples at and around every range end, ALL sample sizes 1..5000 for the bins)."),
         note=TB + " atan2/degrees are a parameter d of the model; float rounding of 90-d is compared within 1e-9 circularly; the float np.arange edge count is only swept (1..5000), not proved.",
         ref="DESIGN.md section 6 C15", technique="Lean 4 theorems over regenerated functions + exhaustive sweep of the float-dependent bin count"),
+    "C17": dict(
+        text=("Proof (Lean 4) over a model of the joblib.Memory protocol (store keyed by (function, arguments); call = lookup, load, else compute and store; arbitrary damage "
+              "or deletion of entries between calls; cache enabled or disabled): for EVERY history and every store satisfying the invariant, under the load law "
+              "(damaged bytes fail to load or load to the right value) every call returns the uncached value (C17_transparent, induction over the history), enabled = "
+              "disabled call by call, entries are never read under another key; regenerated list of the six decorated functions and the FRACTOPO_DISABLE_CACHE rule. "
+              "Tie: stream S17 (fault enumeration): histories of up to 8 calls of 4 cached operations x 8 near-identical inputs in two subprocesses sharing a cache dir, "
+              "with delete / truncate at k/8 / byte-flip faults on the files under it, each call compared (result AND caller-visible side effects: index, columns, crs) "
+              "with the cache-disabled run. The load law is false for payload byte flips: known finding F10, pinned witness."),
+        note=TB + " joblib's argument hashing is assumed injective (KeyInjective is built into the model's store); pickle/zlib formats are the load/dump parameters. run_grid_sampling and determine_fit are in the decorated list but not exercised by S17 (quick) -- partial.",
+        ref="DESIGN.md section 6 C17", technique="Lean 4 invariant over all histories and fault sequences + enumerated fault correspondence in subprocesses"),
+    "C18": dict(
+        text=("Proof (Lean 4): regenerated create_grid arithmetic (rows/cols = ceilings, top-left anchoring, column-major loop nest, unit steps) and sample radius 1.5*sqrt(area); "
+              "for all rational extents and widths: the cells reach the far bound with no superfluous cell, are w x w squares, rows*cols of them in column-major order, "
+              "pairwise interior-disjoint, and their union contains the bounding box (C18_cover); zero extent gives zero cells (F11 witness); gathering results into slots "
+              "by submission index yields cells.map f for EVERY completion order (C18_schedule, all permutations / worker counts). Tie: translator + stream S18: "
+              "Network.contour_grid on valid maps x widths (dividing and not) x loky/threading backends: cells vs the model, sampled cells' P21 / connection frequency vs exact "
+              "recomputation from traces and nodes clipped to the 1.5 w circle (exact rational clipping), identical tables across backends and via precursor_grid."),
+        note=TB + " partial: floating-point accumulation of the cell edges (the last edge may miss the bound by ulps, F11) is only bounded by a tolerance in S18; joblib returning results in submission order is the GatherLaw parameter; per-cell topology mode (resolve_branches_nodes=True) is not exercised in quick (F17).",
+        ref="DESIGN.md section 6 C18", technique="Lean 4 theorems over regenerated grid arithmetic (cover/disjoint/schedule) + differential correspondence with exact clipping"),
     "C20": dict(
         text=("Proof (Lean 4): grouping is a partition for every list and every interleaving (flat(group xs) is a permutation of xs, one group per name); "
               "the regenerated Param->Aggregator table is additive exactly for Area, the four counts and Circle Count and C20_aggregate gives sum / area-weighted mean / "
